@@ -134,7 +134,7 @@ func fanoutBalanced(p *Prog, r *Report, R, key string, f *F, body map[*ssa.Basic
 		}
 	}
 	okS := len(sends) == 1 && len(sends[0].Args) == 2 && sends[0].Args[0] == msg && sends[0].Args[1] == "nonblocking"
-	r.Check(len(clones) == 1 && okS && clones[0].In.Block() == sends[0].In.Block(), R, key+"/clone-then-try-send", sends.Pos(p), "one Clone and one non-blocking send per entry", "the fan-out does not (Clone; non-blocking send) once per entry: "+argsOf(sends))
+	r.Check(len(clones) == 1 && okS && (clones[0].In.Block() == sends[0].In.Block() || evDominates(clones[0], sends[0])), R, key+"/clone-then-try-send", sends.Pos(p), "one Clone and one non-blocking send per entry", "the fan-out does not (Clone; non-blocking send) once per entry: "+argsOf(sends))
 	r.Check(len(frees) == 1 && hasAtomPrefix(frees[0].Guard, "!arm("), R, key+"/full-queue-drops-copy", frees.Pos(p), "when the entry's queue is full the copy is released (the sender never blocks)", "a full queue does not release the copy")
 	if len(sends) == 1 {
 		fanoutNoBypass(p, r, R, key, sends[0], nil, "")
